@@ -36,6 +36,34 @@ func init() {
 			if r.Intn(2) == 0 {
 				sp.Mode = "vi"
 			}
+			if r.Intn(5) == 0 {
+				// a bound sequence that longer binds extend by two keys or more: the first of those keys arrives, then
+				// a key that rules the longer binds out — the shorter bind runs (first of whatever runs afterwards)
+				short := leaders[r.Intn(len(leaders))] + string(rune('a'+r.Intn(3)))
+				ext := string(rune('a'+r.Intn(3))) + string(rune('a'+r.Intn(3)))
+				if r.Intn(2) == 0 {
+					ext += string(rune('a' + r.Intn(3)))
+				}
+				sp.Probes = 2
+				sp.Binds = []Bind{{Seq: rcSeq(short), Cmd: "verif-probe-0"}, {Seq: rcSeq(short + ext), Cmd: "verif-probe-1"}}
+				n := 1 + r.Intn(len(ext)-1) // keys of the extension that are typed
+				stream := short + ext[:n] + "z"
+				var chunks []string
+				if r.Intn(2) == 0 {
+					chunks = []string{stream}
+				} else {
+					for i := 0; i < len(stream); i++ {
+						if stream[i] == 0x1b && sp.Mode == "vi" && i+1 < len(stream) {
+							chunks = append(chunks, stream[i:i+2])
+							i++
+							continue
+						}
+						chunks = append(chunks, stream[i:i+1])
+					}
+				}
+				sp.Chunks = hexChunks(chunks)
+				return Case{Specs: []Spec{sp}, Class: sp.Mode + "/overlap", Meta: map[string]string{"first": "verif-probe-0:"}}
+			}
 			nb := 2 + r.Intn(5)
 			sp.Probes = nb
 			seqs := map[string]int{}
@@ -100,6 +128,16 @@ func init() {
 				if res.Panic != "" {
 					return nil
 				}
+			}
+			if first := c.Meta["first"]; first != "" {
+				stat("overlap: decided")
+				if len(tr.Invoked) == 0 || !strings.HasPrefix(tr.Invoked[0], first) {
+					return []Finding{{"C03", "shorter-bind-does-not-run/" + c.Specs[0].Mode, fmt.Sprintf("binds %v, typed %q\ninvoked %v", c.Specs[0].Binds, unhex(c.Specs[0].Chunks), tr.Invoked), c}}
+				}
+				if len(tr.Invoked) > 1 {
+					return []Finding{{"C03", "runs-more-than-the-shorter-bind/" + c.Specs[0].Mode, fmt.Sprintf("binds %v, typed %q\ninvoked %v", c.Specs[0].Binds, unhex(c.Specs[0].Chunks), tr.Invoked), c}}
+				}
+				return nil
 			}
 			got := strings.Join(tr.Invoked, " ")
 			stat("decided")
